@@ -5,6 +5,7 @@ design configurations still produce their counterexamples. Exit 0 = all corrupti
 2 = the machinery accepts a corrupted observation (machinery failure)."""
 import copy
 import json
+import os
 import sys
 
 from . import monitor, rel, tlc
@@ -131,7 +132,16 @@ def main():
         if inv not in r["violated"]:
             failures.append(f"{neg} must violate {inv}")
         print(f"  PathCore     {neg} -> violated {r['violated']}")
-    from .checks.purity import SOLVER_OBJECT_NEG, APALACHE_STEPS
+    from .checks.purity import SOLVER_OBJECT_NEG, APALACHE_STEPS, judge_object_traces
+    # SolverObjectTrace: a faithful trace is accepted; a history of 6 entries for 3 iterations, a changed constructor
+    # parameter and a stale result after a refill are each rejected at the corrupted line
+    ots = json.load(open(os.path.join(tlc.VERIF, "scenarios", "solver_object_selftest.json")))["traces"]
+    got, _r = judge_object_traces(ots)
+    want = {1: (True, 5), 2: (False, 2), 3: (False, 1), 4: (False, 3)}
+    for k, (ok, reached) in want.items():
+        if (got[k][0], got[k][1]) != (ok, reached):
+            failures.append(f"SolverObjectTrace selftest trace {k}: got {got[k]}, expected accepted={ok} at line {reached}")
+    print(f"  SolverObjectTrace hand-made traces -> {got}")
     for init, inv, length, want in APALACHE_STEPS:
         try:
             r = tlc.apalache("MC_SolverObject", init, inv, length)
